@@ -25,10 +25,14 @@ type Tier struct {
 	LRaw         int    // over SigmaRaw
 	EmbedW       int    // embeddings: max |w| over SigmaUTF8 (-1 = none)
 	EmbedPN      int    // embeddings are applied to P patterns with at most this many AST nodes (0 = all)
+	HugePN       int    // P patterns with more than this many AST nodes get only ASCII haystacks of ≤ LHuge symbols (0 = off)
+	LHuge        int    // symbols over SigmaASCII for the patterns beyond HugePN
 	SeedJ        []int  // right-pad lengths of the seed embeddings
 	SeedEmbFirst int    // when > 0 only the first SeedEmbFirst seed patterns (the seeds themselves come first) get embeddings
 	Pads         []byte // embedding pad bytes (default: 'a' and ' ')
 	SeedEmbTokN  int    // token alphabet size for the seeds that get embeddings (0 = TokN)
+	SeedTokL     int    // the first SeedEmbFirst seed patterns: sequences of ≤ SeedTokL tokens (0 = TokL) ...
+	SeedTokN     int    // ... over this many tokens (0 = TokN)
 	TokL         int    // seed haystacks: sequences of ≤ TokL tokens
 	TokN         int    // token alphabet size for seeds
 	SeedEmbW     int    // seed embeddings: |w| ≤ this many tokens
@@ -44,6 +48,8 @@ type Space struct {
 	HP   [][]byte // haystacks for P patterns (without embeddings)
 	HPE  [][]byte // haystacks for small P patterns (with embeddings)
 	NPE  int      // P patterns [0,NPE) get HPE
+	HH   [][]byte // haystacks for the P patterns beyond HugePN
+	NPH  int      // P patterns [NPH,NP) get HH
 }
 
 var embedJ1 = []int{0, 33}
@@ -54,14 +60,15 @@ var embedJ2 = []int{0, 1, 31, 33, 100}
 // start-up cost of a worker.
 func NewSpace(t Tier) *Space {
 	sp := &Space{T: t}
-	key := fmt.Sprintf("P%d-S%d-E%d", t.PN, t.SK, t.EmbedPN)
+	key := fmt.Sprintf("P%d-S%d-E%d-H%d", t.PN, t.SK, t.EmbedPN, t.HugePN)
 	cache := filepath.Join("/verif/.work/cache", "pats-"+key+".txt")
 	if b, err := os.ReadFile(cache); err == nil {
 		lines := strings.Split(strings.TrimSuffix(string(b), "\n"), "\n")
-		if len(lines) >= 3 {
+		if len(lines) >= 4 {
 			sp.NP, _ = strconv.Atoi(lines[0])
 			sp.NPE, _ = strconv.Atoi(lines[1])
-			for _, l := range lines[2:] {
+			sp.NPH, _ = strconv.Atoi(lines[2])
+			for _, l := range lines[3:] {
 				p, err := strconv.Unquote(l)
 				if err != nil {
 					sp.Pats = nil
@@ -85,8 +92,14 @@ func NewSpace(t Tier) *Space {
 			if n == t.EmbedPN {
 				sp.NPE = len(sp.Pats)
 			}
+			if n == t.HugePN {
+				sp.NPH = len(sp.Pats)
+			}
 		}
 		sp.NP = len(sp.Pats)
+		if t.HugePN == 0 || t.HugePN >= t.PN {
+			sp.NPH = sp.NP
+		}
 		if t.EmbedPN == 0 || t.EmbedPN >= t.PN {
 			sp.NPE = sp.NP
 		}
@@ -100,7 +113,7 @@ func NewSpace(t Tier) *Space {
 			}
 		}
 		var sb strings.Builder
-		fmt.Fprintf(&sb, "%d\n%d\n", sp.NP, sp.NPE)
+		fmt.Fprintf(&sb, "%d\n%d\n%d\n", sp.NP, sp.NPE, sp.NPH)
 		for _, p := range sp.Pats {
 			sb.WriteString(strconv.Quote(p))
 			sb.WriteByte('\n')
@@ -133,6 +146,9 @@ func NewSpace(t Tier) *Space {
 		}
 		sp.HP = mk(t.LBig, u8, raw)
 	}
+	if sp.NPH < sp.NP {
+		sp.HH = mk(t.LHuge, 0, 0)
+	}
 	if t.EmbedW >= 0 {
 		words := space.WordList(append(append([]string{}, space.SigmaUTF8...), "\xff"), t.EmbedW)
 		sp.HPE = space.Union(sp.HPE, space.Embed(words, sp.pads(), space.EmbedI, embedJ1))
@@ -145,8 +161,11 @@ func (sp *Space) Haystacks(u int) [][]byte {
 	if u < sp.NPE {
 		return sp.HPE
 	}
-	if u < sp.NP {
+	if u < sp.NPH {
 		return sp.HP
+	}
+	if u < sp.NP {
+		return sp.HH
 	}
 	p := sp.Pats[u]
 	emb := sp.T.SeedEmbW >= 0 && (sp.T.SeedEmbFirst == 0 || u-sp.NP < sp.T.SeedEmbFirst) && !heavy(p)
@@ -156,6 +175,13 @@ func (sp *Space) Haystacks(u int) [][]byte {
 	}
 	toks := space.TokensFor(p, tn)
 	words := space.WordList(toks, sp.T.TokL)
+	if sp.T.SeedTokL > 0 && sp.T.SeedEmbFirst > 0 && u-sp.NP < sp.T.SeedEmbFirst && !heavy(p) {
+		n := sp.T.TokN
+		if sp.T.SeedTokN > 0 {
+			n = sp.T.SeedTokN
+		}
+		words = space.Union(words, space.WordList(space.TokensFor(p, n), sp.T.SeedTokL))
+	}
 	if emb {
 		ew := space.WordList(toks, sp.T.SeedEmbW)
 		words = space.Union(words, space.Embed(ew, sp.pads(), space.EmbedI, sp.seedJ()))
@@ -181,8 +207,8 @@ func (sp *Space) Bounds() map[string]any {
 	return map[string]any{
 		"pattern_ast_nodes_max": sp.T.PN, "seed_edit_distance": sp.T.SK, "patterns": len(sp.Pats), "patterns_P": sp.NP,
 		"haystack_symbols_ascii": sp.T.LASCII, "haystack_symbols_ascii_large_patterns": sp.T.LBig, "haystack_symbols_utf8_large_patterns": sp.T.LUTF8Big, "haystack_symbols_raw_large_patterns": sp.T.LRawBig, "haystack_symbols_utf8": sp.T.LUTF8, "haystack_symbols_raw": sp.T.LRaw,
-		"haystacks_per_P_pattern": len(sp.HP), "haystacks_per_small_P_pattern": len(sp.HPE), "embedding_pattern_nodes_max": sp.T.EmbedPN, "seed_embedding_right_pads": sp.seedJ(), "embedding_word_len": sp.T.EmbedW, "seed_token_alphabet": sp.T.TokN,
-		"seed_token_len": sp.T.TokL, "seed_embedding_word_len": sp.T.SeedEmbW, "seed_embeddings_first_n_seed_patterns": sp.T.SeedEmbFirst, "seed_embedding_token_alphabet": sp.T.SeedEmbTokN, "modes": sp.T.Modes,
+		"huge_pattern_nodes_from": sp.T.HugePN, "haystack_symbols_ascii_huge_patterns": sp.T.LHuge, "haystacks_per_huge_P_pattern": len(sp.HH), "haystacks_per_P_pattern": len(sp.HP), "haystacks_per_small_P_pattern": len(sp.HPE), "embedding_pattern_nodes_max": sp.T.EmbedPN, "seed_embedding_right_pads": sp.seedJ(), "embedding_word_len": sp.T.EmbedW, "seed_token_alphabet": sp.T.TokN,
+		"seed_token_len": sp.T.TokL, "strategy_seed_token_len": sp.T.SeedTokL, "strategy_seed_token_alphabet": sp.T.SeedTokN, "seed_embedding_word_len": sp.T.SeedEmbW, "seed_embeddings_first_n_seed_patterns": sp.T.SeedEmbFirst, "seed_embedding_token_alphabet": sp.T.SeedEmbTokN, "modes": sp.T.Modes,
 	}
 }
 
